@@ -21,7 +21,10 @@ import traceback
 
 REPO = os.environ.get("VERIF_REPO", "/repo")
 VERIF = os.path.dirname(os.path.dirname(os.path.abspath(__file__)))
-BUILD = os.path.join(VERIF, ".build")
+# VERIF_BUILD / VERIF_OUT are only for tools/mutant_matrix.py (checking a scratch copy of the repository
+# without touching /verif's own build cache, evidence and replay directories); the registered commands never set them
+BUILD = os.environ.get("VERIF_BUILD", os.path.join(VERIF, ".build"))
+OUT = os.environ.get("VERIF_OUT", VERIF)
 NCPU = os.cpu_count() or 4
 
 EXIT_OK, EXIT_VIOLATION, EXIT_HARNESS = 0, 1, 2
@@ -235,7 +238,7 @@ class Ctx:
         self.work = os.path.join(BUILD, "work", "%s-%s-%d" % (pid, tier, os.getpid()))
         shutil.rmtree(self.work, ignore_errors=True)
         os.makedirs(self.work)
-        self.replay_root = os.path.join(VERIF, "replay", pid)
+        self.replay_root = os.path.join(OUT, "replay", pid)
         shutil.rmtree(self.replay_root, ignore_errors=True)
         self.evaluations = 0
         self.distinct = set()
@@ -333,12 +336,12 @@ class Ctx:
             "coverage": cov, "assumptions": self.assumptions, "wall_s": round(wall, 2),
             "violations": len(self.violations),
         }
-        os.makedirs(os.path.join(VERIF, "evidence"), exist_ok=True)
-        tmp = os.path.join(VERIF, "evidence", ".%s.json.tmp" % self.pid)
+        os.makedirs(os.path.join(OUT, "evidence"), exist_ok=True)
+        tmp = os.path.join(OUT, "evidence", ".%s.json.tmp" % self.pid)
         with open(tmp, "w") as f:
             json.dump(ev, f, indent=1, sort_keys=True)
             f.write("\n")
-        os.replace(tmp, os.path.join(VERIF, "evidence", "%s.json" % self.pid))
+        os.replace(tmp, os.path.join(OUT, "evidence", "%s.json" % self.pid))
         shutil.rmtree(self.work, ignore_errors=True)
 
         for k in self.known:
